@@ -25,10 +25,12 @@ def run(tier, seed, replay=None):
     n = 80 if tier == "quick" else 800
     hooks = wd + "/admit_hooks.ndjson"
     res = vlib.harness_json(vh, ["admit", "-scenarios", str(n), "-seed", str(seed), "-hooktrace", hooks], wd, timeout=3000, name="admit")
-    if res.get("inconclusive"):
-        raise vlib.Inconclusive("admit harness: " + "; ".join(res["inconclusive"][:3]))
     for viol in res["violations"]:
         v.violation(viol["sig"], viol["what"], viol["replay"])
+    if res.get("inconclusive"):
+        if v.violations:
+            return v.finish("model_checking", {"evaluations": res["evaluations"], "note": "stopped at the first definite wrong values; " + "; ".join(res["inconclusive"][:3])})
+        raise vlib.Inconclusive("admit harness: " + "; ".join(res["inconclusive"][:3]))
     # two running nodes with one ID on real meshes
     dhooks = wd + "/dup_hooks.ndjson"
     dres = vlib.harness_json(vh, ["dupnode", "-scenarios", "6" if tier == "quick" else "40", "-seed", str(seed), "-hooktrace", dhooks],
@@ -39,7 +41,7 @@ def run(tier, seed, replay=None):
         v.violation(viol["sig"], viol["what"], viol["replay"])
     nt = nodetrace.validate(wd, [hooks, dhooks])
     for d in nt["diffs"]:
-        if d["event"] in C11_EVENTS:
+        if d["event"] in C11_EVENTS or any(w == "handled_update_that_must_be_rejected" or w.startswith("read_on_after_") for w in d["what"]):
             v.violation("C11:%s:%s" % (d["event"], "+".join(d["what"])),
                         "node event '%s' is not a behaviour of NetCore/NodeTrace: %s; event %s" % (d["event"], ",".join(d["what"]), d["context"][-1]),
                         {"instance": d["instance"], "context": d["context"]})
